@@ -257,3 +257,11 @@ def run(prog: Program, rep: Report, tier: str):
     sub.rule("R08.6", "", 0)
     c08.r08_6(prog, sub)
     absorb(rep, sub, {"R08.6": "R13.8"})
+    # a valid TypedDict value that omits a NotRequired key is already valid: the required-keys test must not reject it (shared with R03.7)
+    from . import c03
+
+    rep.rule("R13.9", "the required-keys test of TypedDict targets reads the evaluated hints (shared with R03.7)", floor=1)
+    sub = _R("C13", tier)
+    sub.rule("R03.7", "", 0)
+    c03.r03_7(prog, sub)
+    absorb(rep, sub, {"R03.7": "R13.9"})
